@@ -862,19 +862,29 @@ func (m *MutableOverlayWorld) AddFeature(f Feature) error {
 		return err
 	}
 
-	existing := (*m.features)[f.FeatureID()]
+	existing, inOverlay := (*m.features)[f.FeatureID()]
 	references := allReferences(f, m)
-	if existing != nil {
+	// The features that refer to f need to be revalidated whether the version
+	// of f being replaced lives in this world or only in the base.
+	if inOverlay || m.base.HasFeatureWithID(f.FeatureID()) {
 		(*m.features)[f.FeatureID()] = f
 
 		for _, reference := range references {
 			if err := ValidateFeature(NewFeatureFromWorld(reference), &ValidateOptions{InvertClockwisePaths: false}, m); err != nil {
-				(*m.features)[f.FeatureID()] = existing
+				if inOverlay {
+					(*m.features)[f.FeatureID()] = existing
+				} else {
+					delete(*m.features, f.FeatureID())
+				}
 				return err
 			}
 		}
 
-		(*m.features)[f.FeatureID()] = existing
+		if inOverlay {
+			(*m.features)[f.FeatureID()] = existing
+		} else {
+			delete(*m.features, f.FeatureID())
+		}
 	}
 
 	modified := NewModifiedFeaturesWithCopies(f, references, m.features, m)
